@@ -12,8 +12,9 @@ PROPS = {
             {'template': 'units/c07_compound_tables.rs.in', 'modes': [[]], 'canary': True},
         ],
         'kani': [{'name': 'c04', 'jobs': 8, 'timeout': 1500}],
-        # lowering of binary / compound-assignment statements and emit_binop_expr (quote! interpolation, &mut self
-        # recursive descent): outside the verifier's reach -> bounded stand-in through the real front end + code generator
+        # the parser's desugaring of compound assignment on fields / list elements and the recursive descent around the
+        # arms under contract: bounded stand-in through the real front end + code generator (emit_binop_expr, the
+        # lowering's two arithmetic arms and the checker's compound arm are under contract in the units above)
         'bounded_standins': [
             {'oracle': 'incan::emit_division', 'cases': 72, 'function': 'parser + lowering of `L op R` / `T op= R` (compound assignment on locals, fields and list elements; const initializers) and emit_binop_expr',
              'bound': 'exhaustive over / // % x int/float left x int/float right x 6 forms (plain, plain with a negated left operand, compound on a local / field / list element, const initializer over literals); fixed program shapes; checks helper, operand order and promotions in the generated call (a folded const must have Python\'s value)'},
@@ -30,7 +31,7 @@ PROPS = {
             ('stdlib::py_floor_div', {'l': {'f': '-7.0'}, 'r': {'i': 2}}),
         ],
         'not_covered': [
-            'how emit_binop_expr splices the planned helper path and operands into the output token stream (quote!/TokenStream; see C01); compound-assignment desugaring',
+            'in emit_binop_expr the recursive emit_expr of the operands is an assumed contract; quote! is modelled by its literal tokens and spliced values (trusted); the parser\'s desugaring of compound assignment on fields / elements only by the bounded stand-in',
             'IEEE-754 division, fmod and floor themselves (hardware / libm)',
         ],
         'assumptions': [],
@@ -43,11 +44,13 @@ PROPS = {
             {'template': 'units/c05_collections.rs.in', 'modes': [['MODE_OK'], ['MODE_ERR']], 'canary': True},
             {'template': 'units/c05_iter.rs.in', 'modes': [['MODE_OK'], ['MODE_ERR']], 'canary': True},
             {'template': 'units/c05_stdlib_strings.rs.in', 'modes': [['MODE_OK'], ['MODE_ERR']], 'canary': True},
+            {'template': 'units/c05_emit.rs.in', 'modes': [[]], 'canary': True},
+            {'template': 'units/c05_parse_slice.rs.in', 'modes': [[]], 'canary': True},
         ],
         'kani': [{'name': 'c05', 'jobs': 4, 'timeout': 1500}],
-        # the parser's slice syntax, the lowering of Index/Slice and emit_index_expr / emit_slice_expr produce and
-        # consume syntax trees / token streams through `&mut self` recursive descent and quote! interpolation:
-        # outside the verifier's reach. Bounded stand-in through the REAL lexer + parser + code generator.
+        # the parser's slice syntax and the lowering of Index/Slice produce and consume syntax trees through `&mut self`
+        # recursive descent: outside the verifier's reach. Bounded stand-in through the REAL lexer + parser + code
+        # generator. (emit_index_expr / emit_slice_expr / emit_range_call themselves are under contract in c05_emit.)
         'bounded_standins': [
             {'oracle': 'incan::emit_range', 'cases': 155, 'function': 'emit_range_call (call site of the runtime range) and the lowering of for loops over range',
              'bound': 'exhaustive over range(e), range(s, e), range(s, e, k) x {variable, 0, negative literal, 2, expression} per written argument; one fixed program shape; checks argument positions and the defaults 0 / 1 in the generated call'},
@@ -66,7 +69,7 @@ PROPS = {
             ('core::str_char_at', {'s': 'abc', 'i': 3}), ('core::str_slice', {'s': 'abc', 'start': 1, 'end': None, 'step': 0}),
         ],
         'not_covered': [
-            'parsing of [a:b:c] / [::c] and the emitter\'s choice of helper and argument order (syntax-tree / TokenStream code; see C01)',
+            'the lexer (`::` inside brackets, see the known finding) and the lowering of Index / Slice / range calls to IR (recursive descent over syntax trees); in the parser the recursive expression() and in the emitter the recursive emit_expr of the operands are assumed contracts; quote! is modelled by its literal tokens and spliced values (trusted)',
             'HashMap\'s own behaviour is vstd\'s model (obeys_key_model)',
         ],
         'assumptions': [
@@ -82,11 +85,12 @@ PROPS = {
             {'template': 'units/c07_checker.rs.in', 'modes': [[]], 'canary': True},
             {'template': 'units/c07_compound_tables.rs.in', 'modes': [[]], 'canary': True},
             {'template': 'units/c07_compound_check.rs.in', 'modes': [[]], 'canary': True},
+            {'template': 'units/c07_lower.rs.in', 'modes': [[]], 'canary': True},
         ],
         'kani': [],
         'not_covered': [
-            'the compound-assignment check inside check_statement (inline in a 400-line method on checker state), const_eval\'s use; in check_binary the recursive check_expr of the operands and types_compatible are assumed contracts',
-            'emit_binop_expr: splicing of the plan into the output token stream (quote!/TokenStream)',
+            'const_eval\'s use of the policy; in check_binary the recursive check_expr of the operands and types_compatible are assumed contracts; in the compound-assignment arms (checker, lowering) and the Binary arm of the lowering the scope lookup and the check/lowering of the operand expressions are assumed contracts',
+            'in emit_binop_expr the recursive emit_expr of the operands is an assumed contract; quote! is modelled by its literal tokens and spliced values (trusted)',
         ],
         # functions that cannot be brought within the verifier's reach (methods on the checker's state): a bounded
         # stand-in through the REAL front end (lex + parse + check), exhaustive over the stated space; labelled bounded
@@ -95,8 +99,8 @@ PROPS = {
              'bound': 'exhaustive over 7 operators x int/float operand kinds x int/float annotation x 7 right-operand forms (variable, const, literal, 0, negative literal, parenthesised, double minus) x 4 binding positions (let, return, argument, const initializer) x bare / parenthesised right-hand side x 3 annotation spellings (int / Int / INT); fixed program shapes; accepted iff the annotation is the kind given by the table'},
             {'oracle': 'incan::static_type_nested', 'cases': 1500, 'function': 'TypeChecker on nested arithmetic (check_binary applied recursively through check_expr, Paren, Unary)',
              'bound': 'a seeded sample of 1500 random expression trees of depth <= 3 over int/float variables, fields and literals with all seven operators, optionally under a comparison; annotated let; NOT exhaustive'},
-            {'oracle': 'incan::emit_promotion', 'cases': 704, 'function': 'lowering (operand typing, compound-assignment desugaring) + emit_binop_expr for + - * and **',
-             'bound': 'exhaustive over 4 operators x 4 left forms (int/float variable, int/float field) x 11 right forms (variables, fields, len(), index, literals incl. literal ** literal beyond i64) x plain/compound x flat / inner block shadowing outer variables of the other kind; checks which operands are promoted / pow vs powf in the generated Rust'},
+            {'oracle': 'incan::emit_promotion', 'cases': 1408, 'function': 'lowering (operand typing, compound-assignment desugaring) + emit_binop_expr for + - * and **',
+             'bound': 'exhaustive over 4 operators x 4 left forms (int/float variable, int/float field) x 11 right forms (variables, fields, len(), index, literals incl. literal ** literal beyond i64) x plain/compound x flat / inner block shadowing outer variables of the other kind x with / without module-level string constants named like the variables; checks which operands are promoted / pow vs powf in the generated Rust'},
             {'oracle': 'incan::compound_assign', 'cases': 72, 'function': 'parser desugaring of compound assignment on fields / list elements + TypeChecker::check_statement, CompoundAssignment arm',
              'bound': 'exhaustive over 6 compound operators x int/float target x int/float value x local / field / list-element target; fixed program shapes'},
         ],
@@ -111,7 +115,7 @@ PROPS = {
         ],
         'kani': [],
         'not_covered': [
-            'src/lsp/backend.rs: diagnostics published for imported modules (lines 193, 224) and the concurrency of handlers (C18); hover/goto_definition call sites only by the bounded stand-in',
+            'src/lsp/backend.rs (async tower-lsp handlers): the call sites of compile_error_to_diagnostic / span_to_range in analyze_document, collect_dependency_modules, hover and goto_definition only by the bounded stand-ins; the concurrency of handlers (C18) not at all',
         ],
         # compile_error_to_diagnostic builds lsp_types::Diagnostic / Url values (external crates): bounded stand-in on the real function
         'bounded_standins': [
@@ -121,6 +125,8 @@ PROPS = {
              'bound': 'exhaustive over 13 fixed documents x every span start in 0..=len+1 plus two huge offsets; the `--> file:line:col` header must agree with counting newlines and characters (known byte-column class excluded)'},
             {'oracle': 'lsp::published_ranges', 'cases': 6, 'function': 'src/lsp/backend.rs analyze_document (what the server publishes)',
              'bound': 'the real server behind tower_lsp::Server over an in-memory pipe (initialize, initialized, didOpen) on 6 fixed ill-formed documents whose errors follow multi-byte / astral characters or CRLF; every published range (and related-information range) must lie inside the document'},
+            {'oracle': 'lsp::dependency_ranges', 'cases': 12, 'function': 'src/lsp/backend.rs collect_dependency_modules (what the server publishes for an imported module that does not lex / parse, and the summary on the import)',
+             'bound': 'the real server behind tower_lsp::Server over an in-memory pipe on 3 entry documents (many short lines, a single line, non-ASCII comment lines before the import) x 4 dependency files on disk (one long line with a stray character, non-ASCII text before the error, a parse error on the last of several lines, CRLF); every range published under the dependency URI must lie inside the DEPENDENCY text and start where the front end\'s span starts; every range published for the entry document must lie inside the entry text'},
             {'oracle': 'lsp::server_ranges', 'cases': 700, 'function': 'src/lsp/backend.rs hover / goto_definition (call sites of span_to_range and position_to_offset)',
              'bound': 'the real IncanLanguageServer driven with did_open + hover + goto_definition on 6 fixed documents (plain, decorated declarations, multi-byte and astral characters, CRLF, enum, syntax error) x every character boundary as the cursor; every returned range must lie inside the document'},
             {'oracle': 'lsp::diagnostic_range', 'cases': 12000, 'function': 'compile_error_to_diagnostic',
